@@ -455,13 +455,12 @@ func (hs *clientHandshakeState) handshake() error {
 		c.hsState.Store(int32(stateWaiting))
 		c.retransmitTimer.reset()
 
-		// 创建会话
-		if err = hs.createNewSession(); err != nil {
-			return err
-		}
-
 		// 读取 Flight 6（CCS + Finished），支持超时重传
 		if err = hs.readFinished(c.serverFinished[:]); err != nil {
+			return err
+		}
+		// 只有在验证了服务端的 Finished 之后才缓存新会话：以致命错误结束的握手所产生的会话不得再被提供
+		if err = hs.createNewSession(); err != nil {
 			return err
 		}
 	}
